@@ -97,8 +97,21 @@ class Kernel:
     def block(self, stmts, env):
         env = dict(env)
         val = None
+        pushed = 0
         for st in stmts:
+            # guard clause `if c { continue; }` == the rest of the block under `!c` (== the nested `if !c { rest }`)
+            e = st[1] if (is_node(st) and st[0] == "expr") else None
+            if is_node(e) and e[0] == "if" and e[3] is None and self.loops:
+                then = e[2][1] if (is_node(e[2]) and e[2][0] == "block") else e[2]
+                if isinstance(then, list) and len(then) == 1 and is_node(then[0]) and then[0][0] == "expr" and is_node(then[0][1]) and then[0][1][0] == "continue":
+                    c = self.expr(e[1], env)
+                    neg = c[2] if (isinstance(c, tuple) and len(c) == 3 and c[0] == "un" and c[1] == "!") else ("un", "!", c)
+                    self.conds.append(neg)
+                    pushed += 1
+                    continue
             val = self.stmt(st, env)
+        for _ in range(pushed):
+            self.conds.pop()
         return val
 
     def bind(self, pat, val, env, mutable=False):
@@ -258,6 +271,10 @@ class Kernel:
             return ("range", v, lo, hi, e[3]), v
         if is_node(e) and e[0] == "mcall":
             recv, m, args = e[1], e[2], e[4]
+            if m in ("filter", "filter_map", "flat_map", "take_while", "skip_while", "scan") or (m == "map" and any(is_node(a) and a[0] == "closure" for a in args)):
+                raise Unrecognised("iterator pipeline with a `%s` closure" % m)
+            if m == "enumerate" and is_node(recv) and recv[0] == "mcall" and (recv[2] in ("filter", "filter_map", "flat_map", "take_while", "skip_while", "scan") or (recv[2] == "map" and any(is_node(a) and a[0] == "closure" for a in recv[4]))):
+                raise Unrecognised("iterator pipeline with a `%s` closure" % recv[2])
             if m in ("iter", "iter_mut", "into_iter"):
                 r = self.expr(recv, env)
                 v = self.fresh("it")
@@ -414,6 +431,8 @@ class Kernel:
             body = cl[2][1] if (is_node(cl[2]) and cl[2][0] == "block") else [["expr", cl[2], True]]
             return self.expr(["for", cl[1][0], e[1], body], env)
         if t == "mcall":
+            if e[2] in ("filter", "filter_map", "flat_map", "take_while", "skip_while", "scan") and any(is_node(a) and a[0] == "closure" for a in e[4]):
+                raise Unrecognised("iterator pipeline with a `%s` closure" % e[2])   # never a made-up normal form for a selection the evaluator does not model
             return self.mcall(e, env)
         if t == "call":
             f = path_of(e[1])
